@@ -24,20 +24,24 @@ if [ "$cmd" = verify ]; then
   exit 0
 fi
 if [ "$cmd" = run ]; then
+  # seedtool.sh run <name> [tier] [checkId]: apply the seeded change to a scratch copy of /repo
+  # (never to /repo itself), run the check there, replay the first artefact on the changed and
+  # on an unchanged copy.
   name=$2; tier=${3:-quick}
   id=$(python3 -c "import json;print(json.load(open('/verif/seeded/$name/meta.json'))['property'])")
   chk=${4:-$id}
-  cd /repo && git diff --quiet || { echo "/repo dirty"; exit 2; }
-  git -C /repo apply /verif/seeded/$name/patch.diff || exit 2
-  rm -rf /verif/violations/$chk
-  cd /verif && ./bin/vcheck $chk --tier $tier > /tmp/seed/_run_$name.log 2>&1; rc=$?
+  S=/dev/shm/seedrun-$name; S0=/dev/shm/seedrun0-$name; O=/dev/shm/seedrun-out-$name
+  rm -rf $S $S0 $O; cp -a /repo $S; cp -a /repo $S0; mkdir -p $O
+  git -C $S checkout -q -- . ; git -C $S apply /verif/seeded/$name/patch.diff || { rm -rf $S $S0 $O; exit 2; }
+  VERIF_REPO_DIR=$S VERIF_OUT_DIR=$O /verif/bin/vcheck $chk --tier $tier > $O/run.log 2>&1; rc=$?
   rep="-"
-  art=$(grep -m1 -o "replay=[^ ]*" /tmp/seed/_run_$name.log | cut -d= -f2)
-  if [ -n "$art" ]; then if ./bin/vcheck replay $art 2>/dev/null | grep -q "^REPRODUCED"; then rep=reproduced; else rep=NOT-reproduced; fi; fi
-  git -C /repo checkout -- .
-  if [ -n "$art" ]; then if ./bin/vcheck replay $art 2>/dev/null | grep -q "^NOT REPRODUCED"; then rep="$rep,clean-tree:not-reproduced"; else rep="$rep,clean-tree:REPRODUCED?"; fi; fi
-  rm -rf /verif/violations/$chk
-  grep -E "^(VIOLATION|KNOWN|C[0-9]+ tier)" /tmp/seed/_run_$name.log | head -5
+  art=$(grep -m1 -o "replay=[^ ]*" $O/run.log | cut -d= -f2)
+  if [ -n "$art" ]; then
+    if VERIF_REPO_DIR=$S VERIF_OUT_DIR=$O /verif/bin/vcheck replay $art 2>/dev/null | grep -q "^REPRODUCED"; then rep=reproduced; else rep=NOT-reproduced; fi
+    if VERIF_REPO_DIR=$S0 VERIF_OUT_DIR=$O /verif/bin/vcheck replay $art 2>/dev/null | grep -q "^NOT REPRODUCED"; then rep="$rep,clean-tree:not-reproduced"; else rep="$rep,clean-tree:REPRODUCED?"; fi
+  fi
+  grep -E "^(violation|VIOLATION|C[0-9]+ tier)" -A1 $O/run.log | grep -v "^--" | cut -c1-330 | head -8
   echo "seed=$name check=$chk rc=$rc replay=$rep"
+  rm -rf $S $S0 $O
   exit 0
 fi
